@@ -118,7 +118,10 @@ class FunctionAnalysis(ast.NodeVisitor):
             # module.CONSTANT
             return any(e.attr in m.set_consts for m in self.all.values()) and isinstance(e.value, ast.Name)
         if isinstance(e, ast.BinOp) and isinstance(e.op, (ast.BitOr, ast.BitAnd, ast.Sub, ast.BitXor)):
-            return self.is_set(e.left) or self.is_set(e.right)
+            def view(x):
+                return isinstance(x, ast.Call) and isinstance(x.func, ast.Attribute) and x.func.attr in ('keys', 'items')
+            # set operators on dict views yield sets
+            return self.is_set(e.left) or self.is_set(e.right) or view(e.left) or view(e.right)
         if isinstance(e, ast.Call):
             f = e.func
             if isinstance(f, ast.Name):
@@ -368,6 +371,10 @@ def _functions(tree, prefix=''):
 
 def _state_writes(m: ModuleInfo, fn, qual) -> list[Site]:
     out = []
+    for dec in getattr(fn, 'decorator_list', []):
+        d = ast.unparse(dec)
+        if 'lru_cache' in d or d.split('(')[0].split('.')[-1] in ('cache', 'cached_property', 'memoize'):
+            out.append(Site(m.name, qual, fn.lineno, 'module-state-write', f'@{d.split("(")[0]} (results cached across calls)'))
     local = {n.id for n in ast.walk(fn) if isinstance(n, ast.Name) and isinstance(n.ctx, ast.Store)}
     local |= {a.arg for a in fn.args.args + fn.args.kwonlyargs}
     declared_global = set()
